@@ -1,4 +1,4 @@
-HOOK_COMMITS = ["49c272c", "af26913", "e6c7bbc"]
+HOOK_COMMITS = ["49c272c", "af26913", "e6c7bbc", "d9eef44"]
 NOTES = ("All checks: ./check <id> --tier quick|thorough. Each run rebuilds the Go harness from /repo's working tree "
          "with -tags verif, re-checks the Lean theorems of the property and runs the correspondence. "
          "KNOWN_FINDINGS.txt lists recorded and fixed defects.")
